@@ -16,10 +16,13 @@
 //       maxprefix=<largest file length that gets the prefix enumeration>
 #include <cxxabi.h>
 #include <errno.h>
+#include <pthread.h>
+#include <signal.h>
 #include <sys/stat.h>
 #include <sys/syscall.h>
 
 #include <exception>
+#include <functional>
 #include <stdexcept>
 #include <string>
 #include <typeinfo>
@@ -112,6 +115,9 @@ enum : uint8_t {
   R_END = 6,      // case finished
   R_DONE = 7,     // process finished normally
   R_LEAK = 8,     // result of the LSan recoverable leak check over a batch of cases
+  R_ROUTE = 9,    // object-history route: how the image came to hold its pixels + the state it reports
+  R_RSAVE = 10,   // save of a route's image (payload omitted when identical to the direct image's save)
+  R_RLOAD = 11,   // load of a route's saved bytes
 };
 
 // ------------------------------------------------------------------------------------------------
@@ -144,26 +150,53 @@ static void put_img(Rec& r, const Img& im) {
   }
 }
 
-enum StreamKind : uint8_t { S_MEM = 0, S_FILE = 1 };
+// Delivery channels.  MEM: fmemopen buffer.  FILE: fdopen() of a real file cut with ftruncate.
+// FOPEN: fopen(path).  PATH / PATHSTR: the path-based constructors Image(const char*) / Image(const std::string&).
+// PIPE: the read end of a real pipe (not seekable: fseek/ftell fail with ESPIPE), i.e. what Image(stdin) sees.
+enum StreamKind : uint8_t { S_MEM = 0, S_FILE = 1, S_PIPE = 2, S_FOPEN = 3, S_PATH = 4, S_PATHSTR = 5 };
+static const char* const KIND_NAMES[] = {"mem", "file", "pipe", "fopen", "path", "pathstr"};
 
-// A real (unlinked) file that is cut to the wanted length for each load.
+static string tmp_path(const char* tag) { return fmt("./c06_%s_%d.tmp", tag, (int)getpid()); }
+
+static void write_all(int fd, const char* p, size_t n) {
+  while (n) {
+    ssize_t w = write(fd, p, n);
+    if (w < 0) {
+      if (errno == EINTR) continue;
+      harness_error(fmt("write: %s", strerror(errno)));
+    }
+    p += w;
+    n -= w;
+  }
+}
+
+static string read_file(const string& path) {
+  FILE* f = fopen(path.c_str(), "rb");
+  if (!f) harness_error(fmt("cannot reopen %s: %s", path.c_str(), strerror(errno)));
+  string r;
+  char buf[65536];
+  size_t n;
+  while ((n = fread(buf, 1, sizeof(buf), f)) > 0) r.append(buf, n);
+  fclose(f);
+  return r;
+}
+
+// A real named file that is cut to the wanted length for each load.
 struct TruncFile {
   int fd = -1;
+  string path;
   void open_with(const string& bytes) {
     close_it();
-    char path[] = "./c06_trunc_XXXXXX";
-    fd = mkstemp(path);
-    if (fd < 0) harness_error(fmt("mkstemp: %s", strerror(errno)));
-    unlink(path);
-    size_t off = 0;
-    while (off < bytes.size()) {
-      ssize_t w = write(fd, bytes.data() + off, bytes.size() - off);
-      if (w <= 0) harness_error("write temp file");
-      off += w;
-    }
+    path = tmp_path("trunc");
+    fd = open(path.c_str(), O_RDWR | O_CREAT | O_TRUNC, 0600);
+    if (fd < 0) harness_error(fmt("open %s: %s", path.c_str(), strerror(errno)));
+    write_all(fd, bytes.data(), bytes.size());
+  }
+  void cut(size_t n) {
+    if (ftruncate(fd, n) != 0) harness_error("ftruncate");
   }
   FILE* stream(size_t n) {
-    if (ftruncate(fd, n) != 0) harness_error("ftruncate");
+    cut(n);
     if (lseek(fd, 0, SEEK_SET) != 0) harness_error("lseek");
     int d = dup(fd);
     if (d < 0) harness_error("dup");
@@ -172,7 +205,10 @@ struct TruncFile {
     return f;
   }
   void close_it() {
-    if (fd >= 0) close(fd);
+    if (fd >= 0) {
+      close(fd);
+      unlink(path.c_str());
+    }
     fd = -1;
   }
   ~TruncFile() { close_it(); }
@@ -188,24 +224,85 @@ static FILE* mem_stream(const string& bytes, size_t n) {
   return f;
 }
 
-static Img load_stream(FILE* f) {
+// Read end of a pipe holding the first n bytes; the write end is closed, so the reader sees EOF after them.
+// Files larger than the pipe capacity are fed by a writer thread.
+struct PipeFeed {
+  FILE* f = nullptr;
+  pthread_t th;
+  bool threaded = false;
+  int wfd = -1;
+  const char* p = nullptr;
+  size_t n = 0;
+  static void* feeder(void* arg) {
+    PipeFeed* self = (PipeFeed*)arg;
+    const char* q = self->p;
+    size_t left = self->n;
+    while (left) {
+      ssize_t w = write(self->wfd, q, left);
+      if (w < 0) {
+        if (errno == EINTR) continue;
+        break;  // EPIPE: the reader gave up early (exception) - fine
+      }
+      q += w;
+      left -= w;
+    }
+    close(self->wfd);
+    return nullptr;
+  }
+  FILE* open_with(const string& bytes, size_t len) {
+    int fds[2];
+    if (pipe(fds) != 0) harness_error(fmt("pipe: %s", strerror(errno)));
+    p = bytes.data();
+    n = len;
+    wfd = fds[1];
+    if (len <= 60000) {
+      write_all(wfd, p, n);
+      close(wfd);
+    } else {
+      threaded = true;
+      if (pthread_create(&th, nullptr, feeder, this) != 0) harness_error("pthread_create");
+    }
+    f = fdopen(fds[0], "rb");
+    if (!f) harness_error("fdopen pipe");
+    return f;
+  }
+  void finish() {  // after the reader closed its end
+    if (threaded) pthread_join(th, nullptr);
+    threaded = false;
+  }
+};
+
+static Img snapshot(const Image& im) {
   Img r;
+  r.ok = true;
+  r.w = im.get_width();
+  r.h = im.get_height();
+  r.alpha = im.get_has_alpha();
+  r.cw = im.get_channel_width();
+  size_t n = im.get_data_size();
+  if (n > (1u << 28)) harness_error("image implausibly large");
+  if (n) r.data.assign((const char*)im.get_data(), n);
+  return r;
+}
+
+template <typename MakeImage>
+static Img load_with(MakeImage&& make) {
+  Img r;
+  vf::poison_errno();
   try {
-    Image im(f);
-    r.ok = true;
-    r.w = im.get_width();
-    r.h = im.get_height();
-    r.alpha = im.get_has_alpha();
-    r.cw = im.get_channel_width();
-    size_t n = im.get_data_size();
-    if (n > (1u << 28)) harness_error("loaded image implausibly large");
-    r.data.assign((const char*)im.get_data(), n);
+    Image im = make();
+    r = snapshot(im);
   } catch (const std::exception& e) {
     r.exc_type = demangle(typeid(e).name());
     r.exc_what = e.what();
   } catch (...) {
     r.exc_type = "(non-std exception)";
   }
+  return r;
+}
+
+static Img load_stream(FILE* f) {
+  Img r = load_with([f]() { return Image(f); });
   fclose(f);
   return r;
 }
@@ -218,35 +315,63 @@ static bool leak_check() {
 #endif
 }
 
-// Full load + prefix enumeration of one file through one stream kind.
+// Full load + (optionally) prefix enumeration of one file through one delivery channel.
 // `want` is the decode to compare prefixes with when the full load itself failed.
 static void run_file(uint32_t id, uint8_t slot, const string& file, uint8_t kind, bool prefixes, const Img& want,
                      const char* fam) {
   TruncFile tf;
-  if (kind == S_FILE) tf.open_with(file);
-  auto open_n = [&](size_t n) { return kind == S_FILE ? tf.stream(n) : mem_stream(file, n); };
+  bool on_disk = (kind == S_FILE || kind == S_FOPEN || kind == S_PATH || kind == S_PATHSTR);
+  if (on_disk) tf.open_with(file);
+  auto load_n = [&](size_t n) -> Img {
+    switch (kind) {
+      case S_MEM:
+        return load_stream(mem_stream(file, n));
+      case S_FILE:
+        return load_stream(tf.stream(n));
+      case S_FOPEN: {
+        tf.cut(n);
+        FILE* f = fopen(tf.path.c_str(), "rb");
+        if (!f) harness_error("fopen temp file");
+        return load_stream(f);
+      }
+      case S_PATH:
+        tf.cut(n);
+        return load_with([&]() { return Image(tf.path.c_str()); });
+      case S_PATHSTR:
+        tf.cut(n);
+        return load_with([&]() { return Image(tf.path); });
+      case S_PIPE: {
+        PipeFeed pf;
+        Img r = load_stream(pf.open_with(file, n));
+        pf.finish();
+        return r;
+      }
+    }
+    harness_error("bad stream kind");
+  };
+  const char* kn = KIND_NAMES[kind];
 
   C->crumb_n(fam, id, file.size(), kind, slot, 1);
   C->evaluations++;
-  Img full = load_stream(open_n(file.size()));
+  Img full = load_n(file.size());
   {
     Rec r(R_LOAD, id);
     r.u(slot, 1).u(kind, 1);
     put_img(r, full);
     emit(r);
   }
-  C->cls(fmt("load:%s:%s:%s", fam, kind == S_FILE ? "file" : "mem", full.ok ? "ok" : "exc"));
+  C->cls(fmt("load:%s:%s:%s", fam, kn, full.ok ? "ok" : "exc"));
   if (!prefixes) return;
 
   const Img& ref = full.ok ? full : want;
   uint32_t n_exc = 0, n_same = 0, n_diff = 0;
   std::map<string, uint32_t> exc_types;
-  // file kind goes downwards (ftruncate only ever shrinks, so the cut bytes are really gone)
+  // on-disk kinds go downwards (ftruncate only ever shrinks, so the cut bytes are really gone)
   for (size_t k = 0; k < file.size(); k++) {
-    size_t n = (kind == S_FILE) ? file.size() - 1 - k : k;
+    size_t n = on_disk ? file.size() - 1 - k : k;
     C->crumb_n(fam, id, n, kind, slot, 2);
     C->evaluations++;
-    Img r = load_stream(open_n(n));
+    Img r = load_n(n);
     if (!r.ok) {
       n_exc++;
       exc_types[r.exc_type]++;
@@ -267,7 +392,7 @@ static void run_file(uint32_t id, uint8_t slot, const string& file, uint8_t kind
   Rec s(R_PSUM, id);
   s.u(slot, 1).u(kind, 1).u(file.size(), 4).u(n_exc, 4).u(n_same, 4).u(n_diff, 4).u(full.ok, 1).blob(et);
   emit(s);
-  C->cls(fmt("trunc:%s:%s", fam, kind == S_FILE ? "file" : "mem"), file.size());
+  C->cls(fmt("trunc:%s:%s", fam, kn), file.size());
 }
 
 struct Case {
@@ -278,10 +403,54 @@ struct Case {
   string file;
 };
 
-enum : uint8_t { F_PREFIX = 1, F_MEM = 2, F_FILE = 4 };
+// F_FILE: full load through file/fopen/path/pathstr, prefixes through one of them (rotating by case id).
+// F_PIPE: full load through a pipe; F_PIPEPRE: prefixes through a pipe as well.  F_HISTORY: object-history routes.
+enum : uint8_t { F_PREFIX = 1, F_MEM = 2, F_FILE = 4, F_PIPE = 8, F_PIPEPRE = 16, F_HISTORY = 32 };
 enum : uint8_t { SLOT_INPUT = 0, SLOT_PPM = 1, SLOT_BMP = 2, SLOT_PNG = 3 };
 
-static string save_via_file(const Image& im, Image::Format fmt_) {
+static void run_channels(uint32_t id, uint8_t slot, const string& file, uint8_t flags, bool pre, const Img& want,
+                         const char* fam) {
+  if (flags & F_MEM) run_file(id, slot, file, S_MEM, pre, want, fam);
+  if (flags & F_FILE) {
+    static const uint8_t disk[] = {S_FILE, S_FOPEN, S_PATH, S_PATHSTR};
+    for (unsigned i = 0; i < 4; i++) run_file(id, slot, file, disk[i], pre && (id % 4 == i), want, fam);
+  }
+  if (flags & F_PIPE) run_file(id, slot, file, S_PIPE, pre && (flags & F_PIPEPRE), want, fam);
+}
+
+struct Saved {
+  bool ok = false;
+  string bytes, et, ew;
+};
+
+static Saved do_save(const Image& im, Image::Format f) {
+  Saved s;
+  vf::poison_errno();
+  try {
+    s.bytes = im.save(f);
+    s.ok = true;
+  } catch (const std::exception& e) {
+    s.et = demangle(typeid(e).name());
+    s.ew = e.what();
+  }
+  return s;
+}
+
+// 0 = same bytes as save(), 1 = different bytes, 2 = one threw and the other did not
+template <typename Fn>
+static uint8_t alt_save(const Saved& ref, Fn&& fn) {
+  string got;
+  bool ok = false;
+  vf::poison_errno();
+  try {
+    got = fn();
+    ok = true;
+  } catch (const std::exception&) {
+  }
+  return ok != ref.ok ? 2 : (ok && got != ref.bytes ? 1 : 0);
+}
+
+static string save_via_stream(const Image& im, Image::Format fmt_) {
   char* buf = nullptr;
   size_t len = 0;
   FILE* f = open_memstream(&buf, &len);
@@ -299,6 +468,148 @@ static string save_via_file(const Image& im, Image::Format fmt_) {
   return r;
 }
 
+struct Fmt {
+  Image::Format f;
+  uint8_t slot;
+  const char* n;
+};
+static const Fmt FMTS[] = {{Image::Format::COLOR_PPM, SLOT_PPM, "ppm"}, {Image::Format::WINDOWS_BITMAP, SLOT_BMP, "bmp"},
+                           {Image::Format::PNG, SLOT_PNG, "png"}};
+
+// ---- object histories ----------------------------------------------------------------------------
+// Every way an Image object can come to hold the case's pixels (or pixels derived from them), then save.
+// "preserving" routes must save byte-for-byte what the directly constructed image saves; every route's
+// files must decode / load back to the image state the object reports (judged by the Python side).
+struct History {
+  const Case& k;
+  const Image& direct;
+  const Saved* ref;  // saves of the directly constructed image, indexed like FMTS
+  uint8_t route = 0;
+
+  void check(const char* cls, const string& name, const Image& x, bool preserving) {
+    route++;
+    C->crumb("save case %u %s: history route %u %s (%s)", k.id, k.name.c_str(), route, cls, name.c_str());
+    Img st = snapshot(x);
+    {
+      Rec r(R_ROUTE, k.id);
+      r.u(route, 1).blob(cls).blob(name).u(preserving, 1);
+      put_img(r, st);
+      emit(r);
+    }
+    C->cls(fmt("history:%s", cls));
+    for (unsigned i = 0; i < 3; i++) {
+      C->evaluations++;
+      Saved s = do_save(x, FMTS[i].f);
+      uint8_t eq = 2;
+      if (preserving) eq = (s.ok == ref[i].ok && s.bytes == ref[i].bytes) ? 0 : 1;
+      Rec r(R_RSAVE, k.id);
+      r.u(route, 1).u(FMTS[i].slot, 1).u(s.ok ? 0 : 1, 1).u(eq, 1);
+      if (eq != 0) {  // identical to the direct save: nothing new to judge
+        if (s.ok) r.blob(s.bytes);
+        else r.blob(s.et).blob(s.ew.substr(0, 300));
+      }
+      emit(r);
+      if (eq == 0 || !s.ok || FMTS[i].slot == SLOT_PNG) continue;
+      Img back = load_stream(mem_stream(s.bytes, s.bytes.size()));
+      Rec l(R_RLOAD, k.id);
+      l.u(route, 1).u(FMTS[i].slot, 1);
+      put_img(l, back);
+      emit(l);
+    }
+  }
+
+  // pre-existing destination images: default-constructed, every (width, alpha) at another size, another format at the same size
+  struct Dest {
+    string name;
+    std::function<Image()> make;
+  };
+  std::vector<Dest> dests() const {
+    std::vector<Dest> d;
+    d.push_back({"default-constructed", []() { return Image(); }});
+    size_t w = k.want.w, h = k.want.h;
+    for (uint8_t cw : {8, 16, 32, 64})
+      for (bool a : {false, true})
+        d.push_back({fmt("%zux%zu cw%u%s", w + 1, h + 2, cw, a ? "a" : ""), [=]() { return Image(w + 1, h + 2, a, cw); }});
+    uint8_t ocw = k.want.cw == 8 ? 16 : (k.want.cw == 64 ? 8 : k.want.cw * 2);
+    bool oa = !k.want.alpha;
+    d.push_back({fmt("same size cw%u%s", ocw, oa ? "a" : ""), [=]() { return Image(w, h, oa, ocw); }});
+    return d;
+  }
+
+  void run() {
+    const Img& w = k.want;
+    {
+      Image b(direct);
+      check("copy-ctor", "Image b(a)", b, true);
+    }
+    {
+      Image t(direct);
+      Image m(std::move(t));
+      check("move-ctor", "Image m(std::move(copy))", m, true);
+    }
+    for (auto& d : dests()) {
+      {
+        Image x = d.make();
+        x = direct;
+        check("copy-assign", "onto " + d.name, x, true);
+      }
+      {
+        Image x = d.make();
+        Image t(direct);
+        x = std::move(t);
+        check("move-assign", "onto " + d.name, x, true);
+      }
+    }
+    {  // raw-data constructors
+      FILE* f = mem_stream(w.data, w.data.size());
+      Image r(f, w.w, w.h, w.alpha, w.cw);
+      fclose(f);
+      check("raw-load", "Image(FILE*, w, h, alpha, cw)", r, true);
+      string path = tmp_path("raw");
+      int fd = open(path.c_str(), O_WRONLY | O_CREAT | O_TRUNC, 0600);
+      if (fd < 0) harness_error("open raw temp");
+      write_all(fd, w.data.data(), w.data.size());
+      close(fd);
+      Image r2(path.c_str(), w.w, w.h, w.alpha, w.cw);
+      check("raw-load", "Image(const char*, w, h, alpha, cw)", r2, true);
+      Image r3(path, w.w, w.h, w.alpha, w.cw);
+      check("raw-load", "Image(const std::string&, w, h, alpha, cw)", r3, true);
+      unlink(path.c_str());
+    }
+    // an image that was loaded from what the direct image saved, and a copy-assignment of it
+    for (unsigned i = 0; i < 2; i++) {
+      if (!ref[i].ok) continue;
+      FILE* f = mem_stream(ref[i].bytes, ref[i].bytes.size());
+      Image l(f);
+      fclose(f);
+      check("loaded", fmt("Image(FILE*) of the saved %s", FMTS[i].n), l, true);
+      Image x(w.w + 2, w.h + 1, !w.alpha, w.cw == 8 ? 32 : 8);
+      x = l;
+      check("copy-assign", fmt("loaded %s onto %ux%u other format", FMTS[i].n, w.w + 2, w.h + 1), x, true);
+    }
+    // conversions from / to another format (pixel values follow set_channel_width / set_has_alpha, which are
+    // not this property's business: these routes are judged against the state the object itself reports)
+    for (uint8_t ocw : {8, 16, 32, 64}) {
+      if (ocw == w.cw) continue;
+      Image c2(direct);
+      c2.set_channel_width(ocw);
+      check("convert", fmt("set_channel_width(%u)", ocw), c2, false);
+      c2.set_channel_width(w.cw);
+      check("convert", fmt("set_channel_width(%u) and back to %u", ocw, w.cw), c2, false);
+      Image y(3, 2, w.alpha, w.cw);
+      y = c2;
+      check("convert", fmt("copy-assign of the image converted via cw%u", ocw), y, false);
+    }
+    {
+      Image c2(direct);
+      c2.set_has_alpha(!w.alpha);
+      check("convert", fmt("set_has_alpha(%d)", !w.alpha), c2, false);
+      c2.set_has_alpha(w.alpha);
+      check("convert", fmt("set_has_alpha(%d) and back", !w.alpha), c2, false);
+    }
+  }
+};
+
 static void run_save_case(const Case& k, size_t maxprefix) {
   const Img& w = k.want;
   C->crumb("save case %u %s: construct %ux%u alpha=%u cw=%u", k.id, k.name.c_str(), w.w, w.h, w.alpha, w.cw);
@@ -306,57 +617,52 @@ static void run_save_case(const Case& k, size_t maxprefix) {
   if (im.get_data_size() != w.data.size()) harness_error("save case: pixel array size does not match Image::get_data_size()");
   memcpy(im.get_data(), w.data.data(), w.data.size());
 
-  struct F {
-    Image::Format f;
-    uint8_t slot;
-    const char* n;
-  } fmts[] = {{Image::Format::COLOR_PPM, SLOT_PPM, "ppm"}, {Image::Format::WINDOWS_BITMAP, SLOT_BMP, "bmp"},
-              {Image::Format::PNG, SLOT_PNG, "png"}};
-  for (auto& f : fmts) {
+  Saved ref[3];
+  for (unsigned i = 0; i < 3; i++) {
+    const Fmt& f = FMTS[i];
     C->crumb("save case %u %s: save(%s) %ux%u alpha=%u cw=%u", k.id, k.name.c_str(), f.n, w.w, w.h, w.alpha, w.cw);
     C->evaluations++;
-    string bytes, via_file;
-    bool ok = false, file_ok = false;
-    string et, ew;
-    try {
-      bytes = im.save(f.f);
-      ok = true;
-    } catch (const std::exception& e) {
-      et = demangle(typeid(e).name());
-      ew = e.what();
-    }
-    try {
-      via_file = save_via_file(im, f.f);
-      file_ok = true;
-    } catch (const std::exception& e) {
-      if (ok) {
-        et = demangle(typeid(e).name());
-        ew = e.what();
-      }
-    }
+    ref[i] = do_save(im, f.f);
+    const Saved& s = ref[i];
+    // the other writers: save(FILE*), save(const char* filename), save(const std::string& filename)
+    uint8_t via_stream = alt_save(s, [&]() { return save_via_stream(im, f.f); });
+    string path = tmp_path("save");
+    uint8_t via_cpath = alt_save(s, [&]() {
+      im.save(path.c_str(), f.f);
+      return read_file(path);
+    });
+    unlink(path.c_str());
+    uint8_t via_spath = alt_save(s, [&]() {
+      im.save(path, f.f);
+      return read_file(path);
+    });
+    unlink(path.c_str());
     Rec r(R_SAVE, k.id);
-    r.u(f.slot, 1).u(ok ? 0 : 1, 1);
-    if (ok) r.blob(bytes);
-    else r.blob(et).blob(ew.substr(0, 300));
-    // 0 = FILE* writer produced the same bytes, 1 = different bytes, 2 = one threw and the other did not
-    r.u(ok != file_ok ? 2 : (ok && bytes != via_file ? 1 : 0), 1);
+    r.u(f.slot, 1).u(s.ok ? 0 : 1, 1);
+    if (s.ok) r.blob(s.bytes);
+    else r.blob(s.et).blob(s.ew.substr(0, 300));
+    r.u(via_stream, 1).u(via_cpath, 1).u(via_spath, 1);
     emit(r);
     string fam = fmt("saved-%s-cw%u%s", f.n, w.cw, w.alpha ? "a" : "");
-    C->cls(fmt("save:%s:cw%u:%s", f.n, w.cw, ok ? "ok" : "exc"));
-    if (!ok || f.slot == SLOT_PNG) continue;  // phosg has no PNG loader
+    C->cls(fmt("save:%s:cw%u:%s", f.n, w.cw, s.ok ? "ok" : "exc"));
+    if (!s.ok || f.slot == SLOT_PNG) continue;  // phosg has no PNG loader
     // the image must not have been changed by saving
     if (im.get_data_size() != w.data.size() || memcmp(im.get_data(), w.data.data(), w.data.size()) != 0) {
       C->violation(fmt("save:%s:source-image-modified", f.n), "save() changed the in-memory image", k.name);
     }
-    bool pre = (k.flags & F_PREFIX) && bytes.size() <= maxprefix;
-    if (k.flags & F_MEM) run_file(k.id, f.slot, bytes, S_MEM, pre, w, fam.c_str());
-    if (k.flags & F_FILE) run_file(k.id, f.slot, bytes, S_FILE, pre, w, fam.c_str());
+    bool pre = (k.flags & F_PREFIX) && s.bytes.size() <= maxprefix;
+    run_channels(k.id, f.slot, s.bytes, k.flags, pre, w, fam.c_str());
+  }
+  if (k.flags & F_HISTORY) {
+    History h{k, im, ref};
+    h.run();
   }
 }
 
 int main(int argc, char** argv) {
   vf::Ctx& c = vf::init(argc, argv);
   C = &c;
+  signal(SIGPIPE, SIG_IGN);  // a reader that throws early closes its end of the pipe while the feeder still writes
   string in = c.arg("in"), obs = c.arg("obs");
   if (in.empty() || obs.empty()) harness_error("need --arg in=<cases> --arg obs=<observations>");
   size_t start = strtoull(c.arg("start", "0").c_str(), nullptr, 10);
@@ -418,8 +724,7 @@ int main(int argc, char** argv) {
     c.crumb("case %u idx %u [%s] %s", k.id, idx, k.fam.c_str(), k.name.c_str());
     if (k.kind == 0) {
       bool pre = (k.flags & F_PREFIX) && k.file.size() <= maxprefix;
-      if (k.flags & F_MEM) run_file(k.id, SLOT_INPUT, k.file, S_MEM, pre, k.want, k.fam.c_str());
-      if (k.flags & F_FILE) run_file(k.id, SLOT_INPUT, k.file, S_FILE, pre, k.want, k.fam.c_str());
+      run_channels(k.id, SLOT_INPUT, k.file, k.flags, pre, k.want, k.fam.c_str());
     } else {
       run_save_case(k, maxprefix);
     }
